@@ -45,7 +45,9 @@ def main(tier, seed, replay):
     if cases is None:
         return ck.finish()
     viol = [c for c in cases if c.get("viol")]
-    terms = ["([%s], [%s])" % ("; ".join(op_term(o) for o in c["ops"]), "; ".join(obs_term(o) for o in c["obs"])) for c in cases]
+    def kept(c):   # a statement the (fake) engine refused or lost, and that reported an error, is not part of the table's history
+        return [(o, b) for o, b in zip(c["ops"], c["obs"]) if not (o.get("fault") and b["r"] == "err")]
+    terms = ["([%s], [%s])" % ("; ".join(op_term(o) for o, _ in kept(c)), "; ".join(obs_term(b) for _, b in kept(c))) for c in cases]
     bad, errs, dt = vlib.coq_mismatches("c13", "From Coq Require Import List ZArith.\nImport ListNotations.\nFrom Asherah Require Import Metastore.Table Cases.C13Run.\nOpen Scope Z_scope.",
                                         "list mop * list mout", terms, "mismatches_from", shard=300)
     for e in errs:
@@ -59,8 +61,9 @@ def main(tier, seed, replay):
         "evaluations": len(cases), "distinct_nontrivial": len(nt),
         "rule": "random sequences of Store/Load/LoadLatest over 3 key ids x 6 creation stamps (overlapping), records with binary key bytes (empty, NUL, 0xff, quotes, "
                 "HTML-sensitive), revoked on/off, with/without parent meta, immediate read-after-write, per implementation: memory, sql mysql/postgres/oracle, dynamodb v1/v2 "
-                "with default/custom table names and region suffix on/off; non-trivial = distinct sequence with a refused duplicate or at least two successful reads",
-        "implementations": impls, "ops_total": sum(len(c["ops"]) for c in cases),
+                "with default/custom table names and region suffix on/off; on the SQL engines one statement in six fails (refused, or the connection drops while the "
+                "row is fetched, or the insert is refused): it must report an error, never 'no such record'; non-trivial = distinct sequence with a refused duplicate or at least two successful reads",
+        "implementations": impls, "faulted_statements": sum(1 for c in cases for o in c["ops"] if o.get("fault")), "ops_total": sum(len(c["ops"]) for c in cases),
         "traces_validated_against_impl": len(cases) - len(bad), "samples": [cases[0], cases[4]],
     })
     ck.cov["trusted_base"] += ["real DynamoDB / SQL engines are replaced by semantic fakes written from their documentation (the fakes ARE the assumption about those services)",
